@@ -982,7 +982,7 @@ def run(ctx):
                     "harness/realextract.py extraction directives (R -> OCaml float), correspondence only",
                     "Model/ButterModel.v (scipy.signal.butter order 1 analog band-pass, scipy.signal.freqs) and Model/AntennaResponseModel.v (Antenna.receive, Signal.__add__) are hand-written: validated by correspondence, receive pinned by AST hash"]
     ctx.assumptions += ["theorems are over the real numbers; binary64 rounding is covered by the numeric correspondence and probes only",
-                        "linearity / energy statements are relative to C05's theorems filter_linear, filter_frequencies_length, filter_passive (Section hypotheses here, discharged by coq/Props/C05.v)",
+                        "the linearity / energy statements exist in two forms: for any filter with C05's three properties (hypotheses), and hypothesis-free for C05's concrete model of Signal.filter_frequencies (response_linear_and_energy_concrete, via Proofs/FilterBridge.v); what remains assumed is only that FilterModel.v models the NumPy/SciPy FFT pipeline (C05's correspondence)",
                         "every proper rotation is the rotation of a unit quaternion (standard fact, not proved here)",
                         "signal values and gains are real (Antenna and DipoleAntenna return real gains)"]
     ctx.partial += []
